@@ -183,7 +183,7 @@ Print Assumptions C01_pd_same_index_same_prefix.
 
 (* historical (fixed in c2652db): the earlier code accepted 2101:db8::/72 for the pool 2001:db8::/64 -> /72 (index 0), and
    2001:db8:0:0:1::5/128 for 2001:db8::/120 -> /128 *)
-Definition ex_pd : pdcfg := {| pd_net := 42540766411282592856903984951653826560; pd_nbits := 64; pd_plen := 72 |}.
+Definition ex_pd : pdcfg := {| pd_net := 42540766411282592856903984951653826560; pd_nbits := 64; pd_plen := 72; pd_v4 := false |}.
 Definition ex_foreign : N := 43869994407067508729807792011934171136.
 Theorem C01_pd_injective_refuted :
   exists c p i A, pd_wf c = true /\ prefix_to_index Defective c p = Some i /\ pfx_num p = Some A /\ A < W128 /\
@@ -275,7 +275,7 @@ Print Assumptions C01_pd_release_then_allocatable.
 (* historical (fixed in 1de6b72): NewPrefixAllocator accepted prefix lengths above 128 (PDPool.PrefixLength is a
    uint8 that nothing else validates): every index then yielded the base address with a nil mask, so one address is
    delegated to as many sessions as the pool has indices.  Repaired: such a pool is refused. *)
-Definition ex_pd_big : pdcfg := {| pd_net := 42540766411282592856903984951653826560; pd_nbits := 120; pd_plen := 130 |}.
+Definition ex_pd_big : pdcfg := {| pd_net := 42540766411282592856903984951653826560; pd_nbits := 120; pd_plen := 130; pd_v4 := false |}.
 Theorem C01_pd_plen_unvalidated_refuted :
   pd_new Unguarded ex_pd_big = true /\
   exists st evs ip,
@@ -288,16 +288,17 @@ Print Assumptions C01_pd_plen_unvalidated_refuted.
 Theorem C01_pd_plen_validated :
   forall c, pd_new Repaired c = true -> pd_net c < W128 -> pd_wf c = true.
 Proof.
-  intros c H N. unfold pd_new in H. unfold pd_wf. simpl in H.
-  apply andb_true_iff in H. destruct H as [H1 H2]. rewrite H1, H2. apply N.ltb_lt in N. rewrite N. reflexivity.
+  intros c H N. unfold pd_new in H. unfold pd_wf. cbn [unguarded v4pd orb] in H.
+  apply andb_true_iff in H. destruct H as [H H3]. apply andb_true_iff in H. destruct H as [H1 H2].
+  apply negb_true_iff in H3. rewrite H3 in *. rewrite H1, H2. apply N.ltb_lt in N. rewrite N. reflexivity.
 Qed.
 Print Assumptions C01_pd_plen_validated.
 
 (* non-vacuity: a /62 network given unmasked, /66 prefixes: index 7 spills from the low into the high
    64-bit word; the repaired model rejects the foreign prefix; a history with conflict *)
 Example C01_pd_nonvacuous :
-  pd_wf {| pd_net := 42540766411282592935302647264919420927; pd_nbits := 62; pd_plen := 66 |} = true /\
-  index_to_prefix {| pd_net := 42540766411282592935302647264919420927; pd_nbits := 62; pd_plen := 66 |} 7
+  pd_wf {| pd_net := 42540766411282592935302647264919420927; pd_nbits := 62; pd_plen := 66; pd_v4 := false |} = true /\
+  index_to_prefix {| pd_net := 42540766411282592935302647264919420927; pd_nbits := 62; pd_plen := 66; pd_v4 := false |} 7
     = 42540766411282592930690961246492033024 + 2 ^ 64 + 3 * 2 ^ 62 /\
   prefix_to_index Repaired ex_pd (Pfx (Some (V6, ex_foreign)) 72 128) = None /\
   (exists st evs, pd_run Repaired ex_pd
